@@ -34,26 +34,27 @@ var (
 
 //go:norace
 func resetCtx() {
-	for i := 0; i < nctxReg; i++ {
+	for i := range ctxReg {
 		ctxReg[i] = nil
 	}
 	nctxReg = 0
 }
 
+// regCtx remembers c so that a context derived from it later can find it by its
+// Done channel. The registry is a ring: with more than maxCtx contexts alive the
+// oldest are forgotten (a child created from one of those is simply not linked).
+//
 //go:norace
 func regCtx(c *simCtx) bool {
-	if nctxReg >= maxCtx {
-		return false
-	}
-	ctxReg[nctxReg] = c
+	ctxReg[nctxReg%maxCtx] = c
 	nctxReg++
 	return true
 }
 
 //go:norace
 func ctxByDone(key unsafe.Pointer) *simCtx {
-	for i := 0; i < nctxReg; i++ {
-		if *(*unsafe.Pointer)(unsafe.Pointer(&ctxReg[i].done)) == key {
+	for i := 0; i < maxCtx; i++ {
+		if ctxReg[i] != nil && *(*unsafe.Pointer)(unsafe.Pointer(&ctxReg[i].done)) == key {
 			return ctxReg[i]
 		}
 	}
